@@ -171,11 +171,11 @@ headers, kinds of statements and the names they bind) they had when the model wa
 loop, early exit or rebinding has been added that the model does not describe -/
 theorem modelled_functions_have_the_transcribed_shape :
     MlVerif.Gen.C18.shapeCorrelations =
-      "if(hasattr(df, 'iloc')){cor=;cor.iloc[]=;iloc=;if(minmax){mini=;maxi=}}else{cor=;cor[]=;iloc=;if(minmax){mini=;maxi=}};df=;for(k in range(0, draws)){(df_train,df_test)=;for(i in range(cor.shape[0])){xi_train=;xi_test=;for(j in range(cor.shape[1])){xj_train=;xj_test=;assert;mod=;try{call fit}except(Exception){raise};v=;c=;co=;if(iloc){cor.iloc[]Add=;if(minmax){if(k == 0){mini.iloc[]=;maxi.iloc[]=}else{mini.iloc[]=;maxi.iloc[]=}}}else{cor[]Add=;if(minmax){if(k == 0){mini[]=;maxi[]=}else{mini[]=;maxi[]=}}}}}};if(minmax){return};return" ∧
+      "sig(df, model, draws=5, minmax=False)|if(hasattr(df, 'iloc')){cor=;cor.iloc[]=;iloc=;if(minmax){mini=;maxi=}}else{cor=;cor[]=;iloc=;if(minmax){mini=;maxi=}};df=;for(k in range(0, draws)){(df_train,df_test)=;for(i in range(cor.shape[0])){xi_train=;xi_test=;for(j in range(cor.shape[1])){xj_train=;xj_test=;assert;mod=;try{call fit}except(Exception){raise};v=;c=;co=;if(iloc){cor.iloc[]Add=;if(minmax){if(k == 0){mini.iloc[]=;maxi.iloc[]=}else{mini.iloc[]=;maxi.iloc[]=}}}else{cor[]Add=;if(minmax){if(k == 0){mini[]=;maxi[]=}else{mini[]=;maxi[]=}}}}}};if(minmax){return};return" ∧
     MlVerif.Gen.C18.shapeComparableMetric =
-      "tr=;inv_tr=;if(tr is not None and (not callable(tr))){raise};if(inv_tr is not None and (not callable(inv_tr))){raise};if(tr is None and inv_tr is None){raise};if(tr is None){return};if(inv_tr is None){return};return" ∧
+      "sig(metric_function, y_true, y_pred, tr='log', inv_tr='exp', **kwargs)|tr = _known_functions.get(tr, tr) ; inv_tr = _known_functions.get(inv_tr, inv_tr) ; if tr is not None and (not callable(tr)): raise TypeError('Argument tr must be callable.') ; if inv_tr is not None and (not callable(inv_tr)): raise TypeError('Argument inv_tr must be callable.') ; if tr is None and inv_tr is None: raise ValueError('tr and inv_tr cannot be both None at the same time.') ; if tr is None: return metric_function(y_true, inv_tr(y_pred), **kwargs) ; if inv_tr is None: return metric_function(tr(y_true), y_pred, **kwargs) ; return metric_function(tr(y_true), inv_tr(y_pred), **kwargs)" ∧
     MlVerif.Gen.C18.shapeR2Comparable =
-      "return" :=
+      "sig(y_true, y_pred, *, sample_weight=None, multioutput='uniform_average', tr=None, inv_tr=None)|return comparable_metric(r2_score, y_true, y_pred, sample_weight=sample_weight, multioutput=multioutput, tr=tr, inv_tr=inv_tr)" :=
   ⟨rfl, rfl, rfl⟩
 
 /-! ### non-vacuity: concrete instances over `Rat` -/
